@@ -38,6 +38,38 @@ every hook was attached before its Trigger began and is never unhooked, so it is
 def hcOk (g k rounds calls distinct twice : Nat) : Bool :=
   calls == g * k * rounds && distinct == g * k * rounds && twice == 0
 
+/-- `lk`: one goroutine's `LinkTo` calls in program order (target 0 = A, 1 = B, 2 = nil; logical-clock
+stamps of call and return) and one `Trigger` of target `tgt` (stamps of start and end, number of
+times the linked event fired for it).  Let `j` be the last `LinkTo` that had returned when the trigger
+began.  If the next `LinkTo` was called only after the trigger ended, the trigger ran inside one link
+period: it fired the linked event exactly once if `j` linked to its target, never otherwise
+(`C15_link_concurrent`).  Otherwise at most once for `j`'s hook and once per `LinkTo(tgt)` that was
+called before the trigger ended (no hook twice, nothing that was removed before it began). -/
+structure LRec where
+  tgt : Nat
+  call : Nat
+  ret : Nat
+
+structure TRec where
+  tgt : Nat
+  start : Nat
+  stop : Nat
+  fired : Nat
+
+def lkOkOne (ls : List LRec) (t : TRec) : Bool :=
+  let done := ls.takeWhile (fun l => decide (l.ret < t.start))
+  let rest := ls.drop done.length
+  let base := match done.getLast? with
+    | some l => if l.tgt == t.tgt then 1 else 0
+    | none => 0
+  match rest with
+  | [] => t.fired == base
+  | l :: _ =>
+    if l.call > t.stop then t.fired == base
+    else decide (t.fired ≤ base + (rest.filter (fun l => decide (l.call < t.stop) && l.tgt == t.tgt)).length)
+
+def lkOk (ls : List LRec) (ts : List TRec) : Bool := ts.all (lkOkOne ls)
+
 open Hive.Proto
 
 def natsOf (ts : List String) : Option (List Nat) := ts.mapM (·.toNat?)
@@ -68,6 +100,35 @@ def checkHC (toks : List String) : String :=
   match natsOf a, natsOf b with
   | some [g, k, rounds], some [calls, distinct, twice] =>
     verdict (hcOk g k rounds calls distinct twice) "hook-not-invoked-exactly-once"
+  | _, _ => "bad-op"
+
+def parseLK : List String → Option (List LRec × List TRec)
+  | [] => some ([], [])
+  | t :: rest => do
+    let (ls, ts) ← parseLK rest
+    if t.startsWith "L:" then
+      match ((String.ofList (t.toList.drop 2)).splitOn ",").mapM (·.toNat?) with
+      | some [a, b, c] => pure (⟨a, b, c⟩ :: ls, ts)
+      | _ => none
+    else if t.startsWith "T:" then
+      match ((String.ofList (t.toList.drop 2)).splitOn ",").mapM (·.toNat?) with
+      | some [a, b, c, d] => pure (ls, ⟨a, b, c, d⟩ :: ts)
+      | _ => none
+    else none
+
+def checkLK (toks : List String) : String :=
+  let (a, b) := splitArrow toks
+  match natsOf a, parseLK b with
+  | some [_, _, _], some (ls, ts) => verdict (lkOk ls ts) "linked-event-fired-outside-its-link-periods"
+  | _, _ => "bad-op"
+
+/-- `lm`: rounds of simultaneous `LinkTo(A|B)` callers followed by one trigger of A and of B; `bad` =
+rounds in which the linked event did not fire exactly once (exactly one attached link hook exists:
+`LkInv` of the re-link protocol, `C15_link`). -/
+def checkLM (toks : List String) : String :=
+  let (a, b) := splitArrow toks
+  match natsOf a, natsOf b with
+  | some [_, _], some [bad] => verdict (bad == 0) "more-or-less-than-one-link-hook"
   | _, _ => "bad-op"
 
 def parseHook (t : String) : Option (Nat × Nat × Option (Nat × Nat) × Nat) :=
